@@ -8,6 +8,7 @@
   from `/repo` (`Amqp.Gen.Session`, regenerated on every run).
 -/
 import Theorems.Lemmas.Session
+import Theorems.Lemmas.SessionSplit
 
 namespace Amqp.Session
 open Amqp Amqp.Gen.Session
@@ -143,3 +144,107 @@ example : transferIds (run (started 4294967294 5 5 7 2 100) sampleOps).2
     = [4294967294, 4294967295, 0, 1] := by decide
 
 end Amqp.Session
+
+/-! ## one transfer-id per frame on the wire
+
+`next-outgoing-id advances once per frame sent`: the session numbers what the engine hands
+it (`counters_exact_out`), so what has to be shown is that each transfer the engine hands
+over after `split_transfer` leaves the encoder as exactly one frame. -/
+
+namespace Amqp.Frame
+open Amqp.Gen.FrameK
+
+/-- nothing is lost or reordered by the cut -/
+theorem session_cut_payload (B : Nat) (l : SLens) (payload : Bytes) :
+    piecesPayload (sessionSplit B l payload) = payload := by
+  by_cases h1 : split_transfer.cond_if_1 B payload.length l.whole = true
+  · simp [sessionSplit, h1, piecesPayload]
+  · by_cases h2 : split_transfer.cond_if_2 l.first B l.rest = true
+    · simp [sessionSplit, h1, h2, piecesPayload]
+    · have hc : IsCut B l payload := ⟨by simpa using h1, by simpa using h2⟩
+      rw [sessionSplit_cut B l payload hc]
+      have hr : l.rest < B := by
+        simp [split_transfer.cond_if_2] at h2; omega
+      have hm := (sMiddle_spec B l.rest hr payload.length
+        (payload.drop (Nat.min (B - l.first) payload.length)) (by simp [List.length_drop])).2.2
+      have e : ∀ (cs : List Bytes), ((cs.map (fun c => (SKind.cont, c))).map (·.2)) = cs := by
+        intro cs; induction cs with
+        | nil => rfl
+        | cons c cs ih => simp [ih]
+      simp only [piecesPayload, List.map_cons, List.map_append, List.map_nil, List.flatten_cons,
+        List.flatten_append, List.flatten_nil, List.append_nil, e]
+      rw [List.append_assoc, hm, List.take_append_drop]
+
+/-- every piece, together with the performative it was measured with, fits one frame body -/
+theorem session_cut_fits (B : Nat) (l : SLens) (payload : Bytes)
+    (hsz : l.whole + payload.length < 18446744073709551616)
+    (hfb : split_transfer.cond_if_1 B payload.length l.whole = true ∨ IsCut B l payload) :
+    ∀ kc ∈ sessionSplit B l payload, l.of kc.1 + kc.2.length ≤ B := by
+  rcases hfb with h1 | hc
+  · intro kc hk
+    simp [sessionSplit, h1] at hk
+    subst hk
+    have h1' : (if l.whole + payload.length ≥ 18446744073709551616 then 18446744073709551615
+        else l.whole + payload.length) ≤ B := by simpa [split_transfer.cond_if_1, sadd64] using h1
+    simp only [SLens.of]
+    split at h1' <;> omega
+  · rw [sessionSplit_cut B l payload hc]
+    obtain ⟨_, h2⟩ := hc
+    have hf : l.first < B ∧ l.rest < B := by
+      simp [split_transfer.cond_if_2] at h2; omega
+    obtain ⟨m1, m2, _⟩ := sMiddle_spec B l.rest hf.2 payload.length
+      (payload.drop (Nat.min (B - l.first) payload.length)) (by simp [List.length_drop])
+    intro kc hk
+    rw [List.mem_append, List.mem_cons, List.mem_map, List.mem_singleton] at hk
+    rcases hk with (hk | ⟨c, hc, hk⟩) | hk
+    · subst hk
+      simp only [SLens.of, List.length_take]
+      have : Nat.min (B - l.first) payload.length ≤ B - l.first := Nat.min_le_left _ _
+      omega
+    · subst hk
+      have := m1 c hc
+      simp only [SLens.of]; omega
+    · subst hk
+      simp only [SLens.of]; omega
+
+/-- the encoder does not cut a transfer that fits (`FrameEncoder::encode_transfer`) -/
+theorem encoder_keeps_piece (B : Nat) (p : Perfs) (c : Bytes) (h : p.p0.length + c.length ≤ B) :
+    split B p c = [(p.p0, c)] := by
+  apply split_single
+  simp [encode_transfer.cond_if_0]; omega
+
+/-- **one frame per session transfer**: whatever performative encodings the session's
+    transfers end up with, as long as none is longer than what `split_transfer` measured
+    (the delivery-id the session fills in is at most as wide as the one measured), the
+    encoder writes exactly one frame for each of them: the number of frames on the wire
+    equals the number of transfer-ids the session consumed. -/
+theorem one_frame_per_session_transfer (B : Nat) (l : SLens) (payload : Bytes)
+    (hsz : l.whole + payload.length < 18446744073709551616)
+    (hfb : split_transfer.cond_if_1 B payload.length l.whole = true ∨ IsCut B l payload)
+    (perfOf : SKind × Bytes → Perfs)
+    (hlen : ∀ kc ∈ sessionSplit B l payload, (perfOf kc).p0.length ≤ l.of kc.1) :
+    (sessionSplit B l payload).flatMap (fun kc => split B (perfOf kc) kc.2) =
+      (sessionSplit B l payload).map (fun kc => ((perfOf kc).p0, kc.2)) := by
+  have hfit := session_cut_fits B l payload hsz hfb
+  generalize sessionSplit B l payload = ps at *
+  induction ps with
+  | nil => rfl
+  | cons kc ps ih =>
+    have h1 := hfit kc (by simp)
+    have h2 := hlen kc (by simp)
+    rw [List.flatMap_cons, List.map_cons, encoder_keeps_piece B (perfOf kc) kc.2 (by omega)]
+    rw [ih (fun k hk => hlen k (by simp [hk])) (fun k hk => hfit k (by simp [hk]))]
+    rfl
+
+/-- when the cut happens at least two transfers result and the first is marked `more` -/
+theorem session_cut_count (B : Nat) (l : SLens) (payload : Bytes) (hc : IsCut B l payload) :
+    2 ≤ (sessionSplit B l payload).length := by
+  rw [sessionSplit_cut B l payload hc]; simp
+
+-- non-vacuity: a 1000-byte payload, 512-byte frame body, performatives of 30/31/12 bytes
+example : IsCut 512 ⟨30, 31, 12⟩ (List.replicate 1000 0) := by
+  constructor <;> decide +kernel
+example : (sessionSplit 512 ⟨30, 31, 12⟩ (List.replicate 1000 0)).map (fun kc => kc.2.length) = [481, 500, 19] := by
+  decide +kernel
+
+end Amqp.Frame
